@@ -22,7 +22,21 @@ def hw_specs(tier, rng, n=None):
 def run(tier, rep):
     rng = random.Random(seed())
     hw = hw_specs(tier, rng)
-    plain = [dict(sp, yaml=sp["plain_yaml"], hw=False, family=sp["family"] + "-plain", key=sp["key"] + "#plain") for sp in hw]
+    import execpipe
+    ok = []
+    for sp in hw:                     # the plain twin is only of interest for specifications the compiler accepts in metrics mode
+        try:
+            sp = dict(sp, text=execpipe.compile_text(sp["yaml"], hw=True))
+        except Exception:
+            rep.cov["rejected_by_compiler"] += 1
+            continue
+        ok.append(sp)
+    hw = ok
+    seen, plain = set(), []
+    for sp in hw:
+        if sp["plain_yaml"] not in seen:
+            seen.add(sp["plain_yaml"])
+            plain.append(dict(sp, yaml=sp["plain_yaml"], text=None, hw=False, family=sp["family"] + "-plain", key=sp["key"] + "#plain"))
     run_exec("C11", tier, rep, hw + plain, CLAUSES, cap_q=24, cap_t=150, rng=rng,
              rule="the repository's accelerator specifications (numbers scaled) + seeded Einsum templates x architecture/binding/format option vectors "
                   "(DRAM, buffet lazy/eager with evict-on, cache, each intersector type and leader, compute mul/add, sequencer), each also compiled without hardware")
